@@ -12,7 +12,7 @@ SAME canonical text, hence give the same extracted facts; anything the parser do
 Rewrites unified (each is a C identity under the stated side condition):
   * comments, white space, redundant parentheses, redundant braces `{ { s } }`; every branch / loop body is a block;
   * integer literals by value (0x80 == 128, 1u == 1), unary minus on a literal folded;
-  * `e == 0`, `0 == e`  ->  `!e`;   in a boolean context (condition of if / while / for / ?:, operand of ! && ||)
+  * `e == 0`, `0 == e` (also with `false` / `NULL` for 0)  ->  `!e`;   in a boolean context (condition of if / while / for / ?:, operand of ! && ||)
     `e != 0`, `0 != e` -> `e` and `!!e` -> `e`;   `!(a == b)` -> `a != b`, `!(a != b)` -> `a == b`;
   * `a > b` -> `b < a`, `a >= b` -> `b <= a`;  operands of + * & | ^ == != && || in a canonical order when both are
     free of side effects (no call, assignment, ++/--);
@@ -445,6 +445,7 @@ def idents(e, out=None):
 
 
 COMMUTATIVE = {"+", "*", "&", "|", "^", "==", "!="}
+ZEROS = (("num", 0), ("id", "false"), ("id", "NULL"))        # compared with ==/!=: `x == NULL`, `x == false` are `!x`
 NEGATE = {"==": "!=", "!=": "=="}
 
 
@@ -480,9 +481,9 @@ def norm_expr(e, boolctx):
             a, b = b, a
         if op in ("==", "!="):
             zero = None
-            if b == ("num", 0):
+            if b in ZEROS:
                 zero = a
-            elif a == ("num", 0):
+            elif a in ZEROS:
                 zero = b
             if zero is not None:
                 if op == "==":
@@ -597,17 +598,32 @@ def chain_arms(st):
                 ok[0] = False
                 return
             labs.append(cand[1])
-        collect(cur[1])
-        if not ok[0]:
-            return None
-        arms.append((labs, as_block(cur[2])))
-        nxt = cur[3]
-        if nxt is not None and nxt[0] == "block" and len(nxt[1]) == 1 and nxt[1][0][0] == "if":
+        if scrut[0] is not None and cur[1] == scrut[0] and cur[3] is not None:
+            # an inner `if (s == 0) Y else X` was oriented to `if (s) X else Y`
+            arms.append(([("num", 0)], as_block(cur[3])))
+            nxt = cur[2]
+        else:
+            collect(cur[1])
+            if not ok[0]:
+                return None
+            arms.append((labs, as_block(cur[2])))
+            nxt = cur[3]
+        if nxt is not None and nxt[0] == "block" and len(nxt[1]) == 1 and nxt[1][0][0] in ("if", "switch"):
             nxt = nxt[1][0]
         if nxt is not None and nxt[0] == "if":
             cur = nxt
             continue
-        default = as_block(nxt) if nxt is not None else None
+        if nxt is not None and nxt[0] == "switch" and nxt[1] == scrut[0]:
+            # the rest of the chain is already in switch form (it was canonicalised first): merge its groups
+            default = None
+            for labs_, body in nxt[2]:
+                body = body[:-1] if body and body[-1] == ("break",) else body
+                if labs_ == [("default",)]:
+                    default = ("block", body)
+                else:
+                    arms.append((list(labs_), ("block", body)))
+        else:
+            default = as_block(nxt) if nxt is not None else None
         keys = [const_key(l) for labs_, _ in arms for l in labs_]
         if len(set(keys)) != len(keys):
             return None
@@ -625,6 +641,8 @@ def norm_block(items):
                 out.extend(n[1])
             else:
                 out.append(n)
+    while len(out) == 1 and out[0][0] == "block":        # `{ { … } }`: the inner scope is the whole outer one
+        out = list(out[0][1])
     return subst_temps(out)
 
 
@@ -652,9 +670,14 @@ def canonical_switch(scrut, groups, default):
 
 
 def finish_if(c, a, b):
-    """c, a, b already canonical: orientation, MUST, chain -> switch"""
+    """c, a, b already canonical: chain -> switch, orientation, MUST"""
     if b is not None and not b[1]:
         b = None
+    ch = chain_arms(("if", c, a, b))
+    if ch is not None:
+        scrut, arms, default = ch
+        if sum(len(l) for l, _ in arms) >= 2:
+            return canonical_switch(scrut, [(l, blk[1]) for l, blk in arms], default[1] if default is not None else None)
     if b is not None and not a[1]:
         c, a, b = norm_expr(("un", "!", c), True), b, None
     if b is not None and c[0] == "un" and c[1] == "!":
@@ -1069,7 +1092,7 @@ def vpat(template):
             return "(?P=%s)" % n
         seen.add(n)
         return "(?P<%s>[A-Za-z_]\\w*)" % n
-    return re.sub(r"\{(\w+)\}", rep, template)
+    return re.sub(r"\{([A-Za-z_]\w*)\}", rep, template)
 
 
 if __name__ == "__main__":
